@@ -170,6 +170,10 @@ func c06Fixed(c *ev.Ctx) {
 		{"local-in-a-loop-body-starts-afresh-every-round", `function f() { r = 0; foreach i in [1, 2, 3] { local s; if (s) { r = r + 100; } s = i; r = r + 1; } return r; } return [f(), f()];`, "ARRAY:[3, 3]"},
 		{"local-in-a-while-body-starts-afresh-every-round", `function f() { r = 0; w = 3; while (w > 0) { w--; local s; if (s) { r = r + 100; } s = 1; r = r + 1; } return r; } return f();`, "INTEGER:3"},
 		{"local-over-the-loop-variable", `function f() { r = []; foreach v1 in [7, 8] { local v1; r = [v1]; } return r; } return f();`, "ARRAY:[null]"},
+		{"function-named-like-a-built-in-but-for-case", `function Max(a, b) { calls = calls + 1; return a + b + 100; } function LOWER(s) { return "mine:" + s; } calls = 0; return [Max(3, 7), LOWER("Ab"), max(3, 7), lower("Ab"), calls];`, "ARRAY:[110, mine:Ab, 7, ab, 1]"},
+		{"wrong-arity-for-a-function-named-like-a-built-in-but-for-case", `function Keys() { return 1; } return Keys({"a": 1});`, "error"},
+		{"built-in-names-are-case-sensitive", `return LEN("abc");`, "error"},
+		{"built-in-names-are-case-sensitive-2", `return Len("abc") + Upper("x");`, "error"},
 		{"mutual-params", `function f(a){ return g(a+1) + a; } function g(a){ return a * 10; } return f(1);`, "INTEGER:21"},
 	}
 	for _, tc := range cases {
